@@ -163,7 +163,7 @@ FACETS = [
           shards={"quick": 4, "thorough": 4},
           rule="every byte string of length 0..2 (65 793) against zlib.crc32"),
     Facet("crc32-random", check_crc32, strategy=lambda tier: data_strategy(2048 if tier == "quick" else 8192),
-          budget={"quick": 2000, "thorough": 40000},
+          budget={"quick": 4000, "thorough": 40000},
           nontrivial=lambda d: len(d) >= 1,
           classify=lambda d: ("len<=8" if len(d) <= 8 else "len<=256" if len(d) <= 256 else "len>256",),
           rule="Hypothesis byte strings up to 2 KiB (8 KiB thorough) incl. constant runs"),
